@@ -197,10 +197,11 @@ CHECKS = {
         pkg="c11", race=False, shards=(4, 16), timeout_s=(600, 3000),
         technique="grant-order monitor in a synctest bubble: arrival order fixed by quiescence between arrivals, observed grant vs FIFO/LIFO model of still-waiting callers",
         level_text="Capacity 1 is held; waiters arrive one at a time with synctest.Wait() between arrivals (arrival order is a fact); PRNG interleaves "
-                   "arrivals, cancellations (eviction on), staggered time-outs and releases; after each release exactly one waiter must be granted and it "
+                   "arrivals, cancellations (eviction on), staggered time-outs, releases and releases whose hand-off attempt the (injected) delegate "
+                   "refuses; after each release exactly one waiter must be granted and it "
                    "must be the oldest (FIFO) / newest (LIFO) still waiting. Every constructor: FromConfig{fifo,lifo,default}, WithDefaults, the "
                    "deprecated Fifo/Lifo constructors (+WithDefaults), FixedPool and Pool with OrderingFIFO/LIFO. Exploration over seeded scenarios.",
-        require=["grants_checked", "grants_with_a_choice", "scenarios/fifo", "scenarios/lifo", "constructor/WithDefaults",
+        require=["grants_checked", "grants_with_a_choice", "releases_with_refused_handoff", "scenarios/fifo", "scenarios/lifo", "constructor/WithDefaults",
                  "constructor/NewLifoBlockingLimiterWithDefaults", "constructor/FixedPool{OrderingLIFO}", "constructor/Pool{OrderingFIFO}"],
         rule="scenario = (constructor (15), 6-20 ops: arrival / cancel / time-out of the oldest / release); non-trivial = at least two grants; distinct = distinct (constructor, trace).",
         assumptions=COMMON_ASSUME + ["time-outs and releases are never placed at the same virtual instant here (that race is C10/C13 territory)"],
@@ -306,7 +307,8 @@ CHECKS = {
                    "lies in the library; each distinct pair of innermost library functions is one violation signature. Exploration: it shows absence of "
                    "races only on the interleavings and paths exercised (per-method call counts are in the evidence).",
         require=["scenario_runs/limit.Vegas", "scenario_runs/strategy.Predicate", "scenario_runs/limiter.Queue", "scenario_runs/registry.gometrics",
-                 "scenario_runs/registry.datadog", "scenario_runs/measurements.WindowlessMovingPercentile", "scenario_runs/pool",
+                 "scenario_runs/registry.datadog", "scenario_runs/registry.gometrics.running", "scenario_runs/registry.datadog.running",
+                 "scenario_runs/measurements.WindowlessMovingPercentile", "scenario_runs/pool",
                  "calls/strategy.Predicate/Partition.String", "calls/registry.gometrics/RegisterDistribution+AddSample", "calls/limit.Settable/SetLimit"],
         rule="run = (scenario, 4-16 goroutines, 300-800 ops per goroutine, yield hooks on/off); every run is non-trivial; distinct = distinct (scenario, "
              "goroutines, iterations, hooks, repetition index).",
